@@ -323,6 +323,19 @@ class Sim:
                     if not sim.stopping:        # (the harness cancels what is still pending when it tears the loop down)
                         sim.emit("reconnEnd")
             c._reconnect = reconnect
+        sim.abandoning_tasks = set()
+        if hasattr(c, "_shut_link"):
+            orig_shut = c._shut_link
+
+            def shut_link():
+                t = asyncio.current_task()
+                if t in sim.abandoning_tasks:
+                    sim.abandoning_tasks.discard(t)
+                elif t in sim.reconn_connecting and c.state.name == "CONNECTED" and sim.conns:
+                    # inside connect(), after CONNECTED was reported: the call has been cancelled and gives its link up
+                    sim.emit(f"connGiveUp {next((k for k, r, w in sim.conns if w is c.writer), 0)}")
+                return orig_shut()
+            c._shut_link = shut_link
         orig_connect = c.connect
 
         async def connect():
@@ -337,6 +350,7 @@ class Sim:
             if c.state.name == "CONNECTED" and (rt is None or rt.done()) and not c.lock.locked() and sim.conns:
                 # the situation a cancelled connect() leaves behind: CONNECTED, and nobody reads from the link
                 sim.emit(f"abandon {next((k for k, r, w in sim.conns if w is c.writer), 0)}")
+                sim.abandoning_tasks.add(t)
             sim.reconn_connecting.add(t)
             try:
                 await orig_connect()
